@@ -383,3 +383,11 @@ def rule_inventory(ctx):
 
 
 RULES.append(("C13.g", "state-mutation inventory: no new site that changes the content of the state this property rests on", rule_inventory))
+
+
+def rule_worker_loops(ctx):
+    from . import c04
+    c04.mt_worker_loop_rule(ctx)
+
+
+RULES.append(("C13.h", "run loops stop only when the worker's queues are empty (a task left in a parked worker's queue is a wake-up that does not lead to a poll)", rule_worker_loops))
